@@ -1,6 +1,6 @@
 (** Property C12 — the theorems the check counts as obligations.  Nothing but
     statements closed by [exact] and [Print Assumptions]. *)
-From HS Require Import Base.Prelude C12.Model C12.PaxosNode C12.PaxosSys C12.PaxosAgree C12.PaxosFull C12.PaxosDecide C12.LockModel C12.Lock C12.MultiModel C12.Multi C12.ElectionModel C12.Election.
+From HS Require Import Base.Prelude Base.PyLib C12.Model C12.PaxosNode C12.PaxosSys C12.PaxosAgree C12.PaxosFull C12.PaxosDecide C12.LockModel C12.Lock C12.MultiModel C12.Multi C12.ElectionModel C12.Election Gen.PaxosGen C12.GenTie.
 From Coq Require Import Sorted.
 Local Open Scope Z_scope.
 
@@ -162,3 +162,19 @@ Theorem c12_election_one_leader : forall members mx, In mx members -> (forall m,
   eleader (enodes (esys_run (cf members strat tmo hb) (sch ++ ext)) j) = Some b -> a = b.
 Proof. exact one_leader. Qed.
 Print Assumptions c12_election_one_leader.
+
+(* ---------------- code level: the ballot order as regenerated by py2coq ---------------- *)
+
+(** The order of the CODE's ballots: the comparison [@dataclass(frozen=True, order=True)] generates
+    for [Ballot] (lexicographic on the compared fields in declaration order; regenerated from the
+    class body of consensus/paxos.py on every run, Gen/PaxosGen.v) is the model's [bal_ltb] on
+    (number, node id), and a strict total order — what "one value per ballot" and the promise /
+    accept comparisons of every Paxos theorem above rest on.  (dataclass derives <=, >, >= from
+    the same field tuple.) *)
+Theorem c12_code_ballot_order : forall a b c : Ballot,
+  Ballot___lt__ a b = bal_ltb (bal_of a) (bal_of b)
+  /\ Ballot___lt__ a a = false
+  /\ (Ballot___lt__ a b = true -> Ballot___lt__ b c = true -> Ballot___lt__ a c = true)
+  /\ (Ballot___lt__ a b = true \/ Ballot___lt__ b a = true \/ bal_of a = bal_of b).
+Proof. intros a b c. exact (conj (tie_ballot_lt a b) (ballot_lt_strict_total a b c)). Qed.
+Print Assumptions c12_code_ballot_order.
